@@ -28,7 +28,7 @@ Lines == <<
   Ln("ab.ba##^script", "rej", "ab.ba"), Ln("a", "rej", ""), Ln("#@#.x", "rej", ""), Ln("##+js(sc1)", "rej", ""),
   Ln("||ab.ba^$csp=x,script", "rej", ""), Ln("||ab.ba^$removeparam=", "rej", ""), Ln("@@||ab.ba^$removeparam=x", "rej", ""),
   Ln("||ab.ba^$match-case", "rej", ""), Ln("||ab.ba^$generichide", "rej", ""), Ln("ab.ba##.x:style(", "rej", "ab.ba"),
-  Ln("127.0.0.1 ab.ba", "net", "ab.ba"), Ln("0.0.0.0 x.com # c", "net", "x.com"), Ln("s.ab.ba", "net", "s.ab.ba"), Ln("::1 www.x.com", "net", "www.x.com"),
+  Ln("127.0.0.1 ab.ba", "net", "ab.ba"), Ln("0.0.0.0 x.com # c", "net", "x.com"), Ln("s.ab.ba", "net", "s.ab.ba"), Ln("::1 www.x.com", "net", "www.x.com"), Ln("0.0.0.0 www.www.x.com", "net", "www.www.x.com"), Ln("www.www.x.com", "net", "www.www.x.com"),
   Ln("127.0.0.1 localhost", "net", ""), Ln("127.0.0.1 a b", "net", ""), Ln("ab", "net", ""), Ln("ab.ba/x", "net", ""), Ln(".ba", "net", ""),
   Ln("ab.ba.", "net", ""), Ln("AB.Ba", "net", "AB.Ba"), Ln("\t0.0.0.0\t\tx.com", "net", "x.com"),
   \* list metadata ("special comments"): first occurrence of a key wins; Expires is 1..14 days or 1..336 hours
